@@ -2,6 +2,9 @@
 import json, os, sys
 import classes as G
 import paths as GP
+import io as _pyio
+import importlib.util, os as _os
+_spec = importlib.util.spec_from_file_location('gen_io', _os.path.join(_os.path.dirname(_os.path.abspath(__file__)), '..', 'gen', 'io.py')); GI = importlib.util.module_from_spec(_spec); _spec.loader.exec_module(GI)
 import runner
 from framework import *
 
@@ -83,6 +86,7 @@ def gen_C07(rng, tier):
 def route_all(case):
     t = case.split()
     if t[0] in ('PATH', 'DJ'): return 'paths'
+    if t[0] in ('BIN', 'BINW', 'TXT', 'TXTW', 'NOFILE'): return 'io'
     if t[0] == 'SUB': return 'classes'
     return route_eq(case)
 def _has_reject(c, I):
@@ -165,7 +169,37 @@ PATH_RULE = ('graphs given as insertion histories: %s; for each (source, destina
              'sets, all walks of minimal length); implementation-chosen values (the single parent, the single path) are VALIDATED against the relation, not fixed; '
              'non-trivial = graph with >= 2 insertions')
 
+def gen_C13(rng, tier):
+    k = 900 if tier == 'quick' else 12000
+    return GI.txt_cases(rng, k) + GI.txtw_cases(rng, k // 2)
+def gen_C14(rng, tier):
+    k = 700 if tier == 'quick' else 10000
+    return ['NOFILE x x : '] + GI.bin_cases(rng, k, cuts=False) + GI.binw_cases(rng, k)
+def gen_C15(rng, tier):
+    k = 120 if tier == 'quick' else 1500
+    return GI.bin_cases(rng, k, cuts=True) + GI.txt_bad_cases(rng, 6 * k)
+def io_nontrivial(c, I): return len(c.split(':', 1)[1].strip()) > 8
+
 PROPS = {
+ 'C13': dict(harness='io', gen=gen_C13, shrink=None, nontrivial=io_nontrivial, model_name='IOModel text routines (getline, findEdgeFromString, stoi, to_string, name table)',
+             histogram=lambda cases: {'load_cases': sum(1 for c in cases if c.startswith('TXT ')), 'name_loader_cases': sum(1 for c in cases if c.startswith('TXT ') and c.split()[3] == '1'), 'write_reload_cases': sum(1 for c in cases if c.startswith('TXTW'))},
+             rule='well-formed text files from a grammar (comment lines, any mix of spaces and tabs before/between/after the two vertex tokens, optional label text, with or without final '
+                  'newline; numeric vertices or vertex names) loaded with loadTextEdgeList / loadTextVertexLabeledEdgeList for unlabelled, int (std::stoi) and std::string labels, '
+                  'directed and undirected; loaded graph (size, lists in order, labels) and name table compared with the Coq model and with an independent reading of the documented '
+                  'format; plus graphs built by histories written with writeTextEdgeList and reloaded (bytes compared with the model writer, reloaded graph == original); '
+                  'non-trivial = file with at least one data line'),
+ 'C14': dict(harness='io', gen=gen_C14, shrink=None, nontrivial=io_nontrivial, model_name='IOModel binary codec / loader / writer',
+             histogram=lambda cases: {'hand_made_files': sum(1 for c in cases if c.startswith('BIN ')), 'write_reload_cases': sum(1 for c in cases if c.startswith('BINW')), 'missing_file': 1},
+             rule='hand-made binary files with records in shuffled order for label widths 0 (unlabelled), 1, 2, 4, 8 bytes and float/double bit patterns, directed and undirected, '
+                  'loaded with loadBinaryEdgeList; graphs built by histories written with writeBinaryEdgeList: the file must be exactly one little-endian record per edge (compared as a '
+                  'multiset of records with the model and the spec), then reloaded and compared (==) with the original after resize; every loader and writer on an unopenable path '
+                  '(std::runtime_error); non-trivial = at least one record'),
+ 'C15': dict(harness='io', gen=gen_C15, shrink=None, nontrivial=io_nontrivial, model_name='IOModel loaders on truncated / malformed input',
+             histogram=lambda cases: {'binary_cut_cases': sum(1 for c in cases if c.startswith('BIN ')), 'malformed_text_cases': sum(1 for c in cases if c.startswith('TXT '))},
+             rule='EVERY cut offset (0..length) of valid binary files of 0-4 records for all label widths: the loader must return exactly the complete records before the cut; and a '
+                  'separate stream of malformed text (blank and one-token lines, non-numeric, negative, overflowing and partly numeric indices, NUL and high bytes, CR, random bytes) mixed '
+                  'into valid files: the loader must return a graph or throw a std::exception; harness under ASan+UBSan (a crash or sanitizer report is a violation); '
+                  'non-trivial = non-empty input'),
  'C11': dict(harness='paths', gen=gen_C11, shrink=None, segments=seg_C11, nontrivial=_path_nontrivial, model_name='PathsModel (BFS, parent walk, stack loop)',
              histogram=lambda cases: {'directed': sum(1 for c in cases if c.startswith('PATH D')), 'undirected': sum(1 for c in cases if c.startswith('PATH U'))},
              rule=PATH_RULE % 'every directed graph on <=3 vertices and every undirected graph on <=3 (sampled on 4) with self-loops x (all) source/destination pairs, layered and grid families, random graphs to 8 vertices with cycles, several components and forced duplicates (thorough: directed <=4, undirected <=5, random to 12)'),
